@@ -31,28 +31,35 @@
         g_hits = 0;                                                                                \
         g_base_calls = 0;
 
-#define EG_GHOSTS g_t0, g_c0, g_data, g_dst, g_hits, g_hit_tbl, g_hit_dst, g_base_calls
+#define EG_TBL_MAX(STRIDE) ((size_t) EG_MAXROWS * 255 * (STRIDE))
+#define EG_GHOSTS g_t0, g_c0, g_data, g_dst, g_hits, g_hit_tbl, g_base_calls
 
+#ifdef EG_NOQ
+#define EG_DISTINCT
+#else
+#define EG_DISTINCT                                                                                \
+        __CPROVER_requires(__CPROVER_forall {                                                      \
+                int r_;                                                                            \
+                (0 <= r_ && r_ < EG_MAXROWS) ==>                                                   \
+                        ((r_ < rows && g_l < rows && r_ != g_l) ==> coding[r_] != coding[g_l])     \
+        })
+#endif
 #define EG_CONTRACT(STRIDE, THR, DATA_BYTES, EXTRA_REQ)                                            \
         __CPROVER_requires(0 <= len && 1 <= k && k <= 255 && 0 <= rows && rows <= EG_MAXROWS)      \
         __CPROVER_requires(0 <= g_l && g_l < EG_MAXROWS)                                           \
         __CPROVER_requires(g_len == len && g_k == k && g_rows == rows)                             \
         __CPROVER_requires(EXTRA_REQ)                                                              \
-        __CPROVER_requires(__CPROVER_is_fresh(coding, (size_t) rows * sizeof(*coding)))            \
-        __CPROVER_requires(__CPROVER_is_fresh(g_tbls, (size_t) rows * (size_t) k * (STRIDE)))      \
+        __CPROVER_requires(g_toff == EG_PROD(g_l, k) * (STRIDE))                                   \
+        __CPROVER_requires(g_tsize >= EG_TBL_MAX(STRIDE) && g_tsize <= 0xffffffffUL)              \
+        __CPROVER_requires(__CPROVER_is_fresh(g_tbls, g_tsize))                                    \
         __CPROVER_requires(__CPROVER_is_fresh(data, (DATA_BYTES)))                                 \
-        __CPROVER_requires(__CPROVER_forall {                                                      \
-                int r_;                                                                            \
-                (0 <= r_ && r_ < EG_MAXROWS) ==>                                                   \
-                        ((r_ < rows && g_l < rows && r_ != g_l) ==> coding[r_] != coding[g_l])     \
-        })                                                                                         \
+        EG_DISTINCT                                                                                \
         __CPROVER_assigns(EG_GHOSTS)                                                               \
         __CPROVER_ensures(len < (THR) ==> (g_base_calls == 1 && g_hits == 0))                      \
         __CPROVER_ensures(len >= (THR) ==> g_base_calls == 0)                                      \
         __CPROVER_ensures((len >= (THR) && g_l < rows) ==> g_hits == 1)                            \
         __CPROVER_ensures((len >= (THR) && g_l < rows) ==>                                         \
-                          g_hit_tbl == g_tbls + (size_t) g_l * (size_t) k * (STRIDE))              \
-        __CPROVER_ensures((len >= (THR) && g_l < rows) ==> g_hit_dst == coding[g_l])
+                          g_hit_tbl == g_tbls + g_toff)
 
 #define EG_ENC(STRIDE, THR) EG_CONTRACT(STRIDE, THR, (size_t) k * sizeof(*data), 1)
 #define EG_UPD(STRIDE, THR)                                                                        \
@@ -60,19 +67,21 @@
 
 /* the batching loop: rows already handled = g_rows - rows */
 #define EG_LOOP(STRIDE)                                                                            \
-        __CPROVER_assigns(rows, g_tbls, coding, g_hits, g_hit_tbl, g_hit_dst)                      \
+        __CPROVER_assigns(rows, g_tbls, coding, g_hits, g_hit_tbl)                                 \
         __CPROVER_loop_invariant(0 <= rows && rows <= g_rows)                                      \
         __CPROVER_loop_invariant(__CPROVER_same_object(coding, __CPROVER_loop_entry(coding)) &&    \
                                  __CPROVER_same_object(g_tbls, __CPROVER_loop_entry(g_tbls)))      \
         __CPROVER_loop_invariant(__CPROVER_POINTER_OFFSET(coding) ==                               \
                                  (size_t) (g_rows - rows) * sizeof(*coding))                       \
-        __CPROVER_loop_invariant(__CPROVER_POINTER_OFFSET(g_tbls) ==                               \
-                                 (size_t) (g_rows - rows) * (size_t) k * (STRIDE))                 \
+        __CPROVER_loop_invariant(__CPROVER_POINTER_OFFSET(g_tbls) <=                               \
+                                 (size_t) (g_rows - rows) * (255 * (STRIDE)))                      \
+        __CPROVER_loop_invariant(g_l >= g_rows - rows ==>                                          \
+                                 __CPROVER_POINTER_OFFSET(g_tbls) +                                \
+                                                 EG_PROD(g_l - (g_rows - rows), k) * (STRIDE) ==   \
+                                         g_toff)                                                   \
         __CPROVER_loop_invariant(g_hits == ((g_l < g_rows - rows) ? 1 : 0))                        \
-        __CPROVER_loop_invariant((g_l < g_rows - rows) ==>                                         \
-                                 (g_hit_tbl == __CPROVER_loop_entry(g_tbls) +                      \
-                                                       (size_t) g_l * (size_t) k * (STRIDE) &&     \
-                                  g_hit_dst == g_dst))                                             \
+        __CPROVER_loop_invariant(g_l < g_rows - rows ==>                                           \
+                                 g_hit_tbl == __CPROVER_loop_entry(g_tbls) + g_toff)               \
         __CPROVER_decreases(rows)
 #define EG_HOOK                                                                                    \
         {                                                                                          \
